@@ -14,7 +14,7 @@ Requests (space separated tokens, no spaces inside a token):
 <dump> = `[v0,…]`: the values of the pool names 0..K-1 visible afterwards (`U` = unbound).
 Values use the canonical text of `vharness::canon` plus `T:<type>` for type objects and `F<n>` for
 function tokens (both are printed back as `<func>`).
-Patterns: `U` | `I<n>` | `X<n>[v,…]` | `A(p)` | `A(p,v)` | `D(p,v)` | `S(p,…)` | `L(p,…)` | `P(p)` |
+Patterns: `U` | `I<n>` | `X<n>[ix,…]` (ix = value | `@lo:hi`) | `A(p)` | `A(p,v)` | `D(p,v)` | `S(p,…)` | `L(p,…)` | `P(p)` |
 `O(a,b)` | `N(a,b)` | `V(v)` | `B<builtin>(p,…)` | `C<sid>(p,…)`.
 Response: `<impl>\t<spec>\t<diagnostics>`. -/
 import NoulithModel.Spec.Match
@@ -203,6 +203,33 @@ def parseBi (s : String) : Option Bi :=
     else if s.startsWith "other" then some (.other 0)
     else none
 
+/-- an index-path entry: a value, or a slice `@<lo>:<hi>` (either bound may be empty) -/
+def pIx : P Ix := fun cs =>
+  match cs with
+  | '@' :: r =>
+    let (lo, r1) : Option Val × List Char := match r with
+      | ':' :: _ => (none, r)
+      | _ => match pVal r with
+        | some (v, r') => (some v, r')
+        | none => (none, r)
+    match r1 with
+    | ':' :: r2 =>
+      (match r2 with
+       | ',' :: _ => some (.slice lo none, r2)
+       | ']' :: _ => some (.slice lo none, r2)
+       | _ => (pVal r2).map fun (v, r3) => (.slice lo (some v), r3))
+    | _ => none
+  | _ => (pVal cs).map fun (v, r) => (.idx v, r)
+
+partial def pIxs : P (List Ix) := fun cs =>
+  match cs with
+  | ']' :: r => some ([], r)
+  | _ =>
+    match pIx cs with
+    | some (i, ',' :: r) => (pIxs r).map fun (is, r2) => (i :: is, r2)
+    | some (i, ']' :: r) => some ([i], r)
+    | _ => none
+
 mutual
 partial def pPat : P Pat := fun cs =>
   match cs with
@@ -210,7 +237,7 @@ partial def pPat : P Pat := fun cs =>
   | 'I' :: r => (pNat r).map fun (n, r) => (.ident n [], r)
   | 'X' :: r =>
     match pNat r with
-    | some (n, '[' :: r2) => (pVals ']' r2).map fun (ixs, r3) => (.ident n ixs, r3)
+    | some (n, '[' :: r2) => (pIxs r2).map fun (ixs, r3) => (.ident n ixs, r3)
     | _ => none
   | 'A' :: '(' :: r =>
     match pPat r with
